@@ -84,7 +84,7 @@ public:
       bufferEnd = bufferStart;
       return;
     }
-    Memory::copy(buffer, data, size);
+    Memory::move(buffer, data, size); // data may lie in the buffer itself
     bufferStart = buffer;
     bufferEnd = buffer + size;
     *bufferEnd = 0;
